@@ -114,13 +114,13 @@ bool ThreadPool::initialize(ssize_t min_thread_num, ssize_t max_thread_num)
         std::lock_guard<std::mutex> lg(d_->lock);
         d_->min_thread_num = min_thread_num;
         d_->max_thread_num = max_thread_num;
+        d_->all_threads_stop_flag = false;  //! 必须在锁内、且在创建工作线程之前
 
         for (ssize_t i = 0; i < min_thread_num; ++i)
             if (!createWorker())
                 return false;
     }
 
-    d_->all_threads_stop_flag = false;
     d_->is_ready = true;
 
     return true;
@@ -258,9 +258,11 @@ void ThreadPool::cleanup()
             }
         );
         d_->threads_cabinet.clear();
+
+        //! 必须在锁内置位：否则刚判断完等待条件、尚未进入等待的工作线程会错过下面的通知，join() 永不返回
+        d_->all_threads_stop_flag = true;
     }
 
-    d_->all_threads_stop_flag = true;
     d_->cond_var.notify_all();
 
     //! 等待所有的线程退出
